@@ -22,7 +22,7 @@ if c.replay:
     c.finish()
 
 # ---- 1. design: TLC exhaustive ----
-consts = dict(ev=5, nodes='{1, 2, 3}', groups='{1, 2}', shards=2) if c.quick else dict(ev=6, nodes='{1, 2, 3, 4}', groups='{1, 2}', shards=3)
+consts = dict(ev=4, nodes='{1, 2, 3}', groups='{1, 2}', shards=3) if c.quick else dict(ev=5, nodes='{1, 2, 3, 4}', groups='{1, 2}', shards=3)
 cfg = '''SPECIFICATION Spec
 CONSTANTS
   Groups = %(groups)s
@@ -47,7 +47,7 @@ cover = r.coverage
 
 # state graph with event labels for replay (smaller bound: every edge becomes an implementation step)
 gconsts = dict(consts)
-gconsts['ev'] = 4 if c.quick else 5
+gconsts['ev'] = 3 if c.quick else 4
 gcfg = cfg.replace('MaxEvents = %d' % consts['ev'], 'MaxEvents = %d' % gconsts['ev'])
 g = tlc.run('Placement.tla', 'g.cfg', tag='c16g', files={'g.cfg': gcfg}, dump=True, timeout=1500)
 if not g.ok:
@@ -77,7 +77,7 @@ for v in res['violations']:
     f2 = c.write_behaviours('repro', [b])
     again = c.run_harness(binp, ['-mode', 'replay', '-in', f2])
     if not again['violations']:
-        c.inconclusive('violation %s not reproduced' % key)
+        c.unreproduced('violation %s not reproduced' % key)
     c.report(v['signature'], v['detail'], {'behaviour': b[: v['step'] + 1], 'harness': 'c16'})
 os.remove(f)
 
